@@ -805,6 +805,23 @@ func Quiesce(maxSteps int64, maxJumps int) bool {
 	}
 }
 
+// OthersEligible reports whether any task other than the caller could run now.
+//
+//go:norace
+func OthersEligible() bool {
+	if !active {
+		return false
+	}
+	s := sched
+	for _, t := range s.tasks {
+		if t != s.cur && s.eligible(t) {
+			return true
+		}
+	}
+	_, ok := s.nextTimer()
+	return ok
+}
+
 // Run executes root as task 0 under a fresh scheduler and blocks until the run
 // is over.
 //
